@@ -65,7 +65,7 @@ def theorem_names(prop_id):
     p = os.path.join(LEAN, "BEI", "Props", f"{prop_id}.lean")
     src = strip_comments(open(p).read())
     ns = re.search(r"^namespace\s+(\S+)", src, flags=re.M).group(1)
-    return [f"{ns}.{m}" for m in re.findall(r"^theorem\s+([\w.']+)", src, flags=re.M)]
+    return [f"{ns}.{m}" for m in re.findall(r"^theorem\s+([\w.'?!]+)", src, flags=re.M)]
 
 
 def lake_build(targets):
